@@ -169,6 +169,12 @@ func (ix *Index) indexReadyBlobs(ctx context.Context) {
 // ix.mu must be held.
 func (ix *Index) noteBlobIndexedLocked(br blob.Ref) {
 	for _, needer := range ix.neededBy[br] {
+		// br has arrived: the persisted edge is satisfied too. If it stayed
+		// (the needer may still wait for other blobs), a restarted index would
+		// wait forever for a blob that is already there.
+		if err := ix.s.Delete(keyMissing.Key(needer, br)); err != nil {
+			log.Printf("index: error deleting missing edge %v -> %v: %v", needer, br, err)
+		}
 		newNeeds := blobsFilteringOut(ix.needs[needer], br)
 		if len(newNeeds) == 0 {
 			ix.readyReindex[needer] = true
@@ -292,7 +298,11 @@ func (ix *Index) ReceiveBlob(ctx context.Context, blobRef blob.Ref, source io.Re
 
 	// TODO(bradfitz): this removeAllMissingEdges need not hold ix.Lock
 	// and could be done in the background.
-	ix.removeAllMissingEdges(blobRef)
+	// A blob that is only partially indexed (a delete claim whose target
+	// is not indexed yet) keeps the edge to what it still waits for.
+	if strings.HasSuffix(mm.kv["have:"+blobRef.String()], "|indexed") {
+		ix.removeAllMissingEdges(blobRef)
+	}
 
 	// TODO(bradfitz): log levels? These are generally noisy
 	// (especially in tests, like search/handler_test), but I
